@@ -1,1 +1,19 @@
-From PM Require Import Model.Step.
+(* C12 — structure edits keep the content.
+   Split, join, lift and wrap are emitted as steps with the structure flag; split and join are replace
+   steps.  Theorem, for every schema, valid document and replace step: if the deleted range contains no
+   text or leaf token and the slice stands for none, the sequence of text and leaf tokens of the document
+   is exactly preserved, and the result is valid (C11_result_valid).  That the helpers approve only edits
+   that then succeed, and the lift / wrap steps (replace-around), are evaluated per case by Corr.C12. *)
+From Coq Require Import List Arith.
+From PM Require Import Model.Data Model.Mark Model.Tree Model.Step Spec.Tokens
+  Proofs.ReplaceValid Proofs.SliceSides Proofs.TokenBasics Proofs.ReplaceTokens Proofs.SliceShape Proofs.TokenLaws.
+Import ListNotations.
+
+Theorem C12_structure_only_step_keeps_leaves : forall s from to sl structure doc d',
+  check s doc = true ->
+  Shape s (sl_content sl) (sl_open_start sl) (sl_open_end sl) -> from <= to ->
+  apply s (SReplace from to sl structure) doc = ROk d' ->
+  leaves (seg (DT s doc) from to) = [] -> leaves (IT s sl) = [] ->
+  leaves (DT s d') = leaves (DT s doc).
+Proof. exact replace_step_structure_only. Qed.
+Print Assumptions C12_structure_only_step_keeps_leaves.
